@@ -233,7 +233,7 @@ func runCompScenario(sc CompScenario) compResult {
 				rc, rcancel := context.WithCancel(context.Background())
 				rp.Reload(rc)
 				rcancel()
-				rec.add("LT90:%s", rp.GetState())
+				rec.addNow(func() string { return fmt.Sprintf("LT90:%s", rp.GetState()) })
 			}
 		}
 		if k == 1 && sc.CbFail > 0 {
@@ -357,7 +357,7 @@ func runCompScenario(sc CompScenario) compResult {
 				}
 			}
 		}
-		rec.add("RET:%s:%s", cls, runner.GetState())
+		rec.addNow(func() string { return fmt.Sprintf("RET:%s:%s", cls, runner.GetState()) })
 		close(runDone)
 	}()
 	// wait until Running (or Run returned)
@@ -414,7 +414,7 @@ func runCompScenario(sc CompScenario) compResult {
 			c.mu.Unlock()
 		}
 		sort.Strings(run)
-		rec.add("SN%s:%s:%s", tag, runner.GetState(), strings.Join(run, "."))
+		rec.addNow(func() string { return fmt.Sprintf("SN%s:%s:%s", tag, runner.GetState(), strings.Join(run, ".")) })
 	}
 	snapshot("i")
 	var ops sync.WaitGroup
@@ -437,7 +437,7 @@ func runCompScenario(sc CompScenario) compResult {
 				rc, rcancel := context.WithCancel(context.Background())
 				runner.Reload(rc)
 				rcancel()
-				rec.add("LT%d:%s", k, runner.GetState())
+				rec.addNow(func() string { return fmt.Sprintf("LT%d:%s", k, runner.GetState()) })
 			}
 			if sc.Sequential {
 				snapshot(fmt.Sprint(k))
